@@ -94,7 +94,14 @@ def join (sep : Str) : List Str → Str
 def lowerChar (c : Char) : Char :=
   if 'A'.toNat ≤ c.toNat ∧ c.toNat ≤ 'Z'.toNat then Char.ofNat (c.toNat + 32) else c
 
-def lower (s : Str) : Str := s.map lowerChar
+/-- `unicode.ToLower` (rune by rune, as `strings.ToLower` applies it) on the repertoire the generators use:
+    ASCII, the Latin-1 capitals, and `İ` (U+0130), whose lower case `i` is shorter in UTF-8 -/
+def lowerRune (c : Char) : Char :=
+  if c.toNat = 0x130 then 'i'
+  else if (0xC0 ≤ c.toNat ∧ c.toNat ≤ 0xDE) ∧ c.toNat ≠ 0xD7 then Char.ofNat (c.toNat + 32)
+  else lowerChar c
+
+def lower (s : Str) : Str := s.map lowerRune
 
 /-- Unicode white space as `strings.TrimSpace` / `unicode.IsSpace` see it -/
 def isSpace (c : Char) : Bool :=
